@@ -226,6 +226,10 @@ func c05Instances(name string, lvl int) []c05Inst {
 				base := joinInts(t)
 				hi := append(append([]int{}, t[:k-2]...), t[k-2]+1)
 				add(c05Inst{construct: fmt.Sprintf("~= %d segments", k), rng: "~=" + base, lo: base, loIncl: true, hi: joinInts(hi), hiCore: hi})
+				if k <= 3 {
+					// a post-release base keeps its suffix in the lower bound: ~=2.2.post1 is >=2.2.post1, ==2.*
+					add(c05Inst{construct: fmt.Sprintf("~= %d segments, post-release base", k), rng: "~=" + base + ".post1", lo: base + ".post1", loIncl: true, hi: joinInts(hi), hiCore: hi})
+				}
 			}
 		}
 		for k := 1; k <= 3; k++ {
